@@ -240,6 +240,30 @@ def _private(fi) -> bool:
     return n.startswith('_') and not (n.startswith('__') and n.endswith('__'))
 
 
+def _new_function(fi) -> bool:
+    """a function the reference tree does not have (a helper a refactoring introduced, whatever its name): nobody
+    outside the program can call it yet, so what its parameters hold is what the program's call sites hand over"""
+    try:
+        from .. import alpha
+        R = alpha._load_ref()
+    except Exception:
+        return False
+    funcs = R.get('__funcs__')
+    if not funcs:
+        return False
+    rel = fi.module.relpath
+    if not rel.startswith('src/'):
+        return False
+    known = funcs.get(rel)
+    q = fi.qualname
+    if known is not None and q in known:
+        return False
+    # a function that moved (pass M) is known under its reference name
+    if (rel, q) in getattr(alpha, '_MOVED_INV', {}):
+        return False
+    return True
+
+
 def _call_sites(ctx):
     """(file, qualname) of callee -> [(caller FunctionInfo, call node)] over the resolved program, once per run"""
     cache = getattr(ctx.prog, '_own_call_sites', None)
@@ -256,7 +280,7 @@ def _call_sites(ctx):
 
 def exposed(ctx, fi, param, seen=None) -> bool:
     """does `param` of fi hold an object that belongs to a caller outside the analysed helpers?"""
-    if not _private(fi):
+    if not _private(fi) and not _new_function(fi):
         return True
     seen = seen or set()
     key = (id(fi.node), param)
